@@ -688,6 +688,36 @@ impl<const N: usize> GV<N> {
     }
 }
 
+impl<const N: usize> Order for GV<N> {
+    fn order(&self) -> usize {
+        let mut n = 0;
+
+        for u in 0..N {
+            if self.v[u] {
+                n += 1;
+            }
+        }
+
+        n
+    }
+}
+
+impl<const N: usize> Size for GV<N> {
+    fn size(&self) -> usize {
+        let mut n = 0;
+
+        for u in 0..N {
+            for v in 0..N {
+                if self.a[u][v] {
+                    n += 1;
+                }
+            }
+        }
+
+        n
+    }
+}
+
 impl<const N: usize> Vertices for GV<N> {
     fn vertices(&self) -> impl Iterator<Item = usize> {
         mask(self.v)
